@@ -672,6 +672,7 @@ func ctSM4Config(arch string) {
 }
 
 func genCTIRSM4() {
+	checkArm64Trampoline() // sm4_asm_arm64.go: cryptoBlockAsmX16 = Internal(rk, dst, src, dst), or stop
 	// the tables of "ctir" are package-level: they are replaced here and restored afterwards
 	save := struct {
 		rels     []string
